@@ -539,7 +539,9 @@ func c10Lookup(content map[string]any, raw string) (any, error) {
 }
 
 // c10FillPatchOracles computes the oracle tables of a patch for the given objects.
-func c10FillPatchOracles(p *c10Patch, xr, cd map[string]any, mons *[]Mon) {
+// The result tells whether source and transforms succeeded, i.e. whether the real patch reaches
+// the phase that writes the destination.
+func c10FillPatchOracles(p *c10Patch, xr, cd map[string]any, mons *[]Mon) bool {
 	typ := p.Type
 	if typ == "" {
 		typ = "FromCompositeFieldPath"
@@ -551,32 +553,32 @@ func c10FillPatchOracles(p *c10Patch, xr, cd map[string]any, mons *[]Mon) {
 	case "ToCompositeFieldPath", "CombineToComposite":
 		src, dst = cd, xr
 	default:
-		return
+		return false
 	}
 	var cur any
 	toPath := p.To
 	switch typ {
 	case "FromCompositeFieldPath", "ToCompositeFieldPath":
 		if p.From == nil {
-			return
+			return false
 		}
 		if toPath == nil {
 			toPath = p.From
 		}
 		in, err := c10Lookup(src, p.From.Raw)
 		if err != nil {
-			return
+			return false
 		}
 		cur = in
 	default:
 		if p.Combine == nil || p.To == nil || len(p.Combine.Vars) == 0 {
-			return
+			return false
 		}
 		vars := make([]any, 0, len(p.Combine.Vars))
 		for _, v := range p.Combine.Vars {
 			x, err := c10Lookup(src, v.Raw)
 			if err != nil {
-				return
+				return false
 			}
 			vars = append(vars, x)
 		}
@@ -585,20 +587,20 @@ func c10FillPatchOracles(p *c10Patch, xr, cd map[string]any, mons *[]Mon) {
 			p.Combine.Orc["out"] = fmt.Sprintf(*p.Combine.Fmt, vars...)
 		}
 		if p.Combine.Strategy != "string" || p.Combine.Fmt == nil {
-			return
+			return false
 		}
 		cur = fmt.Sprintf(*p.Combine.Fmt, vars...)
 	}
 	out, ok := c10FillChainOracles(p.Xfs, cur, mons)
 	if !ok {
-		return
+		return false
 	}
 	mo := c10RealMO(p.Policy)
 	if typ == "CombineFromComposite" || typ == "CombineToComposite" {
 		mo = nil
 	}
 	if mo == nil {
-		return
+		return true
 	}
 	// merge oracle: one entry per destination that holds a non-nil value
 	paths := []string{toPath.Raw}
@@ -606,7 +608,7 @@ func c10FillPatchOracles(p *c10Patch, xr, cd map[string]any, mons *[]Mon) {
 		var ex []string
 		var err error
 		if pn := Guard(func() { ex, err = fieldpath.Pave(c10CopyMap(dst)).ExpandWildcards(toPath.Raw) }); pn != "" || err != nil {
-			return
+			return true
 		}
 		paths = ex
 	}
@@ -626,6 +628,7 @@ func c10FillPatchOracles(p *c10Patch, xr, cd map[string]any, mons *[]Mon) {
 		}
 		p.MergeOrc = append(p.MergeOrc, e)
 	}
+	return true
 }
 
 // c10FillChainOracles runs the chain step by step with the real Resolve to learn every step's
@@ -724,7 +727,7 @@ func c10RunPatch(s *c10Scn) (map[string]any, []Mon, string) {
 	s.XR, s.CD = c10Enc(xrC), c10Enc(cdC)
 	var mons []Mon
 	c10PrepPatch(s.Patch)
-	c10FillPatchOracles(s.Patch, xrC, cdC, &mons)
+	reachedDest := c10FillPatchOracles(s.Patch, xrC, cdC, &mons)
 	rp := c10RealPatch(*s.Patch)
 	only := c10PatchTypes(s.Only)
 
@@ -734,7 +737,13 @@ func c10RunPatch(s *c10Scn) (map[string]any, []Mon, string) {
 		if pn := Guard(func() { err = composite.Apply(rp, xr, cd, only...) }); pn != "" {
 			return "panic:" + pn, xr.Object, cd.Object
 		}
-		return c10ErrClass(err), xr.Object, cd.Object
+		ec := c10ErrClass(err)
+		// which key of a map a wildcard expansion trips over first depends on Go map order, so
+		// the class of an error raised while writing a wildcard destination is not compared
+		if ec != "" && reachedDest && c10WildDest(s.Patch) && !strings.HasPrefix(ec, "other:") {
+			ec = "destErr"
+		}
+		return ec, xr.Object, cd.Object
 	}
 	ec, xrA, cdA := run()
 	if strings.HasPrefix(ec, "panic:") {
@@ -799,6 +808,20 @@ func c10RunPatch(s *c10Scn) (map[string]any, []Mon, string) {
 	}
 	cls := fmt.Sprintf("patch/%s/%s%s%s/x%d/%s", c10Or(s.Patch.Type, "default"), pol, mo, wild, len(s.Patch.Xfs), res)
 	return obs, mons, cls
+}
+
+// c10WildDest: a from/to-field-path patch whose destination path has a wildcard.
+func c10WildDest(p *c10Patch) bool {
+	switch p.Type {
+	case "", "FromCompositeFieldPath", "ToCompositeFieldPath":
+	default:
+		return false
+	}
+	tp := p.To
+	if tp == nil {
+		tp = p.From
+	}
+	return tp != nil && strings.Contains(tp.Raw, "[*]")
 }
 
 func c10Unstable(p *c10Patch) bool {
